@@ -24,11 +24,13 @@ def _configs():
         feats = [f for i, f in enumerate(WIRE_FEATURES) if m >> i & 1]
         cfgs["k%d" % m] = feats
     cfgs["k9"] = WIRE_FEATURES + ["arbitrary"]
+    cfgs["k8"] = ["arbitrary"]     # the fuzzing feature alone (feature-dependent constants take their default values)
     return cfgs
 
 CONFIGS = _configs()           # k0..k7 = the 8 wire configurations, k9 = all + arbitrary (+std)
 WIRE_CONFIGS = ["k%d" % m for m in range(8)]
 ALL_CONFIGS = WIRE_CONFIGS + ["k9"]
+EXTRACT_CONFIGS = ALL_CONFIGS + ["k8"]
 
 # generic roots that need an explicit instantiation (see driver/src/mono.rs)
 ROOTS = ";".join([
@@ -138,8 +140,8 @@ def ensure_facts(configs=ALL_CONFIGS, verbose=False, force=False):
         libdir = sysroot_lib()
         t0 = time.time()
         done, failed = {}, {}
-        with ThreadPoolExecutor(max_workers=9) as ex:
-            for cfg, ok, dt, err in ex.map(lambda c: _run_one(c, outdir, nonce, libdir, log), ALL_CONFIGS):
+        with ThreadPoolExecutor(max_workers=10) as ex:
+            for cfg, ok, dt, err in ex.map(lambda c: _run_one(c, outdir, nonce, libdir, log), EXTRACT_CONFIGS):
                 if ok:
                     # freshness: the fact file must carry the nonce issued for this run
                     with open(os.path.join(outdir, cfg + ".json")) as f:
@@ -154,7 +156,7 @@ def ensure_facts(configs=ALL_CONFIGS, verbose=False, force=False):
         meta = {"key": key, "nonce": nonce, "done": done, "failed": failed, "wall_s": round(time.time() - t0, 2), "cached": False}
         # distinguish "tree does not compile" from "driver broken": if every configuration
         # failed and plain rustc can build the default one, it is the driver.
-        if len(failed) == len(ALL_CONFIGS):
+        if len(failed) == len(EXTRACT_CONFIGS):
             err = next(iter(failed.values()))
             if "error[E" not in err and "error:" not in err:
                 raise RuntimeError("driver failure:\n" + err)
